@@ -456,6 +456,15 @@ def _ros_line(rng, word, tier, inplace=None, L=None, stages=None):
     hmin = d(0) if hmin_e is None else d(1, hmin_e)
     hstart = rng.choice([d(1, hmaxp - 3), d(1, hmaxp - 6), d(1, hmaxp + 1), d(1, hmaxp - 1), d(1, hmaxp), d(1, hmaxp - 3),
                          d(1, hmaxp - 2), d(1, hmaxp - 1), d(1, hmaxp - 4), d(1, hmaxp), d(0)])
+    if hstart == d(0) and hmax_e is not None and max_steps % 2 == 0 and ts > -40:
+        # default h_start with an h_max below DELTA_MIN = 1e-6 s (and below the time step): the start value
+        # max(h_min, DELTA_MIN) is then limited by h_max alone.  The whole problem is moved down by 2^-24, decided by
+        # values already drawn, so that the random stream of the other cases is unchanged.
+        sh = -24
+        time_step = d(16777217, ts - 24 + sh) if rk == 30 else d(1, ts + sh)
+        hmax = d(1, hmax_e + sh)
+        if hmin_e is not None:
+            hmin = d(1, hmin_e + sh)
     P = [d(rng.randrange(-2, 3), -2) for _ in range(nspec * nspec)]
     q = [d(rng.randrange(-2, 3), -1) for _ in range(nspec)]
     y0 = [d(rng.randrange(0, 5)) for _ in range(ncells * nspec)]
